@@ -154,3 +154,5 @@ PROP = Prop(
                quick_shards=3, min_nontrivial=50, doc="partial AUC = exact step area and corollaries"),
     ],
 )
+
+RULE_EXTRA = ('score containers as in C02; easy counts up to 2^40.')
